@@ -3,6 +3,7 @@ package net
 import (
 	"math/rand"
 
+	"github.com/ethereum/go-ethereum/common/hexutil"
 	"github.com/ethereum/go-ethereum/p2p/enode"
 	"github.com/holiman/uint256"
 	"github.com/zen-eth/shisui/portalwire"
@@ -97,6 +98,32 @@ func runInRange(w *tracelog.Writer, seed int64, n int) error {
 		st.SetRadius(r)
 		id := triple(nd.P.Self().ID(), r, rng)
 		emit("api", nd.P.Self().ID(), r, id, nd.P.InRange(id))
+	}
+	// the store RPC (portal_*Store): the verdict must be the in-range test on the content ID of the key (sweep mutant
+	// 08-C06 ran it on the key bytes); keys are searched so that the id's distance sits on either side of the radius
+	api := portalwire.NewPortalAPI(nd.P)
+	self := nd.P.Self().ID()
+	for i := 0; i < n/40+40; i++ {
+		r := radii()
+		if i%2 == 0 { // a radius that splits random ids: 2^255 and neighbours / a random high byte
+			var b [32]byte
+			rng.Read(b[:])
+			b[0] = byte(0x40 + rng.Intn(0x80))
+			r = new(uint256.Int).SetBytes(b[:])
+		}
+		st.SetRadius(r)
+		key := make([]byte, 1+rng.Intn(40))
+		rng.Read(key)
+		if i%4 == 1 && len(key) >= 32 { // the key bytes themselves close to the node id while the id is anywhere
+			copy(key, self[:])
+			key[31] ^= byte(1 + rng.Intn(255))
+		}
+		id := nd.P.ToContentId(key)
+		ok, err := api.Store(hexutil.Encode(key), hexutil.Encode([]byte{1, 2, 3}))
+		if err != nil {
+			continue // the store refused for another reason: no observation of the range test
+		}
+		emit("store", self, r, id, ok)
 	}
 	return nil
 }
